@@ -6,7 +6,7 @@
     commutative ring (MathComp [comRingType]), [ROps R ...] = the model's operations instantiated with
     the ring operations, the uninterpreted ones (division, sqrt, fabs, <) arbitrary. *)
 From mathcomp Require Import all_ssreflect all_algebra.
-From LP Require Import Num C04_Model C04_Proofs_Struct C04_Proofs_Laws C04_Proofs_Block.
+From LP Require Import Num C04_Model C04_State C04_Proofs_Struct C04_Proofs_Laws C04_Proofs_Block C04_Proofs_State.
 Import GRing.Theory.
 Local Open Scope ring_scope.
 
@@ -237,6 +237,46 @@ Proof.
         (conj (elimT (block_validP g)) (introT (block_validP g))))).
 Qed.
 Print Assumptions C04_block_constructor.
+(** Call history ("all operator spellings", objects that reached their shape through Resize / Assign / writes /
+    copies; model coq/C04_State.v).  Resize(r,c) yields, from EVERY previous state of the object (also one whose
+    storage does not match rows/columns), the r x c table of the old reads - for a well-formed object the old
+    top-left block and 0.0 elsewhere - and re-establishes the invariant; hence the storage-based accessors
+    Return_Row ( = Vector(components[row]) ) and Sub_Matrix ( = Matrix(components) minus a row and a column )
+    of a resized matrix are those of an r x c matrix. *)
+Theorem C04_resize (A : mat T) (r c : nat) :
+  [/\ m_resize Ops A r c = mk_mat r c (ment A), wf_mat (m_resize Ops A r c) &
+      wf_mat A -> forall i j, (i < r)%N -> (j < c)%N ->
+        ment (m_resize Ops A r c) i j = if (i < mrows A)%N && (j < mcols A)%N then ment A i j else n0 Ops].
+Proof. exact (And3 (m_resize_spec Ops A r c) (m_resize_wf Ops A r c) (fun H i j => @m_resize_entries T Ops A r c i j H)). Qed.
+Print Assumptions C04_resize.
+Theorem C04_resize_accessors (A : mat T) (r c k l : nat) : (0 < r)%N ->
+  return_row (m_resize Ops A r c) k = (if (k < r)%N then Ok (vec_of (tab c (fun j => ment A k j))) else Exit) /\
+  sub_matrix (m_resize Ops A r c) k l =
+    (if (k < r)%N then if (l < c)%N then Ok (mk_mat r.-1 c.-1 (fun i j => ment A (skip k i) (skip l j))) else Exit
+     else Exit).
+Proof. exact (fun H => conj (return_row_resize Ops A r c k) (@sub_matrix_resize T Ops A r c k l H)). Qed.
+Print Assumptions C04_resize_accessors.
+(** Assign(r,c,e) is the fill constructor whatever the object was; M[i][j] = x changes exactly that entry;
+    copy construction and operator= reproduce the object *)
+Theorem C04_assign_set_copy (A old : mat T) (r c i j : nat) (e x : T) :
+  [/\ m_assign A r c e = mat_fill r c e,
+      wf_mat A -> m_set A i j x =
+        (if (i < mrows A)%N then
+           if (j < mcols A)%N
+           then Ok (mk_mat (mrows A) (mcols A) (fun a b => if (a == i) && (b == j) then x else ment A a b))
+           else OOB
+         else Exit),
+      m_copy A = A & m_assign_from old A = A].
+Proof. exact (And4 (m_assign_spec A r c e) (@m_set_spec T Ops A i j x) (m_copy_spec A) (m_assign_from_spec old A)). Qed.
+Print Assumptions C04_assign_set_copy.
+(** the same for Vector::Resize / Assign / v[i] = x / copies *)
+Theorem C04_vector_state (v old : vec T) (n i : nat) (e x : T) :
+  [/\ v_resize Ops v n = vec_of (tab n (vent v)), v_assign v n e = vfill n e,
+      wf_vec v -> v_set v i x =
+        (if (i < vdim v)%N then Ok (vec_of (tab (vdim v) (fun k => if k == i then x else vent v k))) else Exit),
+      v_copy v = v & v_assign_from old v = v].
+Proof. exact (And5 (v_resize_spec Ops v n) (v_assign_spec v n e) (@v_set_spec T Ops v i x) (v_copy_spec v) (v_assign_from_spec old v)). Qed.
+Print Assumptions C04_vector_state.
 End AnyNumberType.
 
 (** Non-vacuity of the laws assumed above: the natural numbers satisfy them; a 2x3 * 3x2 instance,
